@@ -41,6 +41,10 @@ def programs():
                                          "overloads": [["x", {"expr": O("B")}], ["y", {"expr": {"k": "tmpl", "text": "t{C}", "params": []}}]]},
                                      d2={"args": [["a", O("A", dk="const", dv=0)]], "dispatch": O("D", dk="const", dv="x"),
                                          "overloads": [["x", {"expr": O("S.X", dk="const", dv="sx")}], ["y", {"expr": O("E", dk="const", dv=1)}]]}))
+    # case conditions that are expressions over the options: what they read is part of what the case reads
+    add("case-option-conditions", prog({"k": "tuple", "items": [DS(1), K({"k": "case", "disp": O("A", dk="const", dv=0), "n": 31,
+                                                                         "cases": [["eqopt:B", C("a-equals-b")], ["eqopt!:C", O("S.X", dk="const", dv="sx")]], "default": C("neither")})]},
+                                       d1={"args": [["x", {"k": "case", "disp": O("A", dk="const", dv=0), "n": 32, "cases": [["eqopt:B", C("eq-b")], ["eqopt:S.Y", C("eq-sy")]], "default": O("C", dk="const", dv="dflt")}]]}))
     # one dataset object bound to several parameters of one consumer (and used twice inside one collection)
     add("same-dataset-several-parameters", prog(DS(2), d1={"args": [["a", O("A", dk="const", dv=0)]], "effects": ["e"]},
                                                 d2={"args": [["x", DS(1)], ["y", DS(1)], ["z", {"k": "tuple", "items": [DS(1), DS(1)]}]], "cache": "nocache"}))
@@ -208,6 +212,10 @@ def dictionaries():
         {"A": None, "B": 2, "E": None, "C": None, "S": {"X": 2, "Y": 2}},
         {"A": None, "E": None, "C": None},
         {"A": ["p{T.X}q"], "B": ["{A}", "a"], "C": False, "T": {"X": ["{C}", 2]}},
+        {"A": 1, "B": 1, "C": 3},
+        {"A": 1, "B": 2, "C": 3},
+        {"A": 1, "B": 2, "C": 1, "S": {"Y": 1}},
+        {"A": 1, "B": 2, "C": 1, "S": {"Y": 2}},
         {"D": "z", "B": 1, "E": "q", "C": 1},
         {"D": "z", "B": 2, "E": "q", "C": 2},
         {"D": "z", "E": "q"},
